@@ -140,14 +140,15 @@ impl TableBuilder for PostgresQueryBuilder {
                     let first = column_def.types.is_none();
 
                     column_def.spec.iter().fold(first, |first, column_spec| {
-                        if !first
-                            && !matches!(
-                                column_spec,
-                                ColumnSpec::AutoIncrement
-                                    | ColumnSpec::Generated { .. }
-                                    | ColumnSpec::Using(_)
-                            )
-                        {
+                        // specs that do not emit a sub-clause of their own must not emit or consume a separator
+                        let emits_clause = !matches!(
+                            column_spec,
+                            ColumnSpec::AutoIncrement
+                                | ColumnSpec::Generated { .. }
+                                | ColumnSpec::Comment(_)
+                                | ColumnSpec::Using(_)
+                        );
+                        if !first && emits_clause {
                             write!(sql, ", ").unwrap();
                         }
                         match column_spec {
@@ -187,7 +188,7 @@ impl TableBuilder for PostgresQueryBuilder {
                                 QueryBuilder::prepare_simple_expr(self, expr, sql);
                             }
                         }
-                        false
+                        first && !emits_clause
                     });
                 }
                 TableAlterOption::RenameColumn(from_name, to_name) => {
